@@ -45,7 +45,7 @@ TT = 'chainables.tree'
 
 
 def run(ctx: Ctx):
-  for r in (r1, r2, r3, r4, r5, r6, r8):
+  for r in (r1, r2, r3, r4, r5, r6, r8, r9):
     ctx.guard(r)
   from mlmverif.props import c03
   ctx.include('R-C02-7', 'every sliced aggregate sees every slice: the slices of'
@@ -416,6 +416,66 @@ def r4(ctx: Ctx):
   ctx.floor(rule, 6)
 
 
+def r9(ctx: Ctx):
+  rule = 'R-C02-9'
+  ctx.rule(rule, '"intra-example masks": a nested mask/element is classified by VALUE or'
+           ' STRUCTURE, never by truthiness: in a recursive tree function (one that'
+           ' calls itself on an element variable v), an if/elif chain that recurses on v'
+           ' in one branch does not decide another branch by `v` / `not v` — an empty'
+           ' nested container is falsy, so it would be treated as False (dropped or'
+           ' replaced) instead of being recursed into and kept as an empty element;'
+           ' the example then vanishes from the masked column while the unmasked'
+           ' column keeps it and the two columns are mis-paired')
+  repo = ctx.repo
+  n = 0
+  for mod in (TT, TF):
+    mi = repo.module(mod)
+    fns = list(mi.functions.values()) + [m_ for c in mi.classes.values() for m_ in c.methods.values()]
+    for fi in fns:
+      for top in walk_no_nested(fi.node):
+        if not isinstance(top, ast.If):
+          continue
+        # flatten the if/elif chain starting here
+        chain, cur = [], top
+        while True:
+          chain.append((cur.test, cur.body))
+          if len(cur.orelse) == 1 and isinstance(cur.orelse[0], ast.If):
+            cur = cur.orelse[0]
+          else:
+            chain.append((None, cur.orelse))
+            break
+        rec_vars = set()
+        for _, body in chain:
+          for b in body:
+            for c in ast.walk(b):
+              if isinstance(c, ast.Call) and unparse(c.func).split('.')[-1] == fi.name:
+                for a in list(c.args) + [k.value for k in c.keywords]:
+                  if isinstance(a, ast.Name):
+                    rec_vars.add(a.id)
+        if not rec_vars:
+          continue
+        n += 1
+        bad = None
+        for test, _ in chain:
+          if test is None:
+            continue
+          t = test
+          while isinstance(t, ast.UnaryOp) and isinstance(t.op, ast.Not):
+            t = t.operand
+          if isinstance(t, ast.Call) and unparse(t.func) == 'bool' and t.args:
+            t = t.args[0]
+          if isinstance(t, ast.Name) and t.id in rec_vars:
+            bad = test
+        if bad is not None:
+          ctx.fail(rule, fi, f'{fi.qualname}: branches of the recursion on a nested element test value/structure, not truthiness',
+                   f'`{unparse(bad)}` decides a branch by the truthiness of an element the same chain'
+                   ' recurses into: an empty nested mask/container ([] or {}) is falsy and is handled'
+                   ' as "False" (dropped / replaced) instead of being kept as an empty element', node=bad)
+        else:
+          ctx.ok(rule, fi, f'{fi.qualname}: recursion chain classifies by value/structure', top)
+  ctx.floor(rule, 2, n)
+
+
 def r5(ctx: Ctx):
   rule = 'R-C02-5'
   ctx.rule(rule, 'slices do not inherit each other\'s mask configuration: when'
@@ -585,6 +645,12 @@ from mlmverif.selfcheck import B, OK  # noqa: E402
 _T = 'chainables/transform.py'
 _F = 'chainables/tree_fns.py'
 VARIANTS = [
+    B('nested-mask-false-by-truthiness', 'chainables/tree.py',
+      '        result.append(elem)\n      elif mask == False:  # pylint: disable=singleton-comparison',
+      '        result.append(elem)\n      elif not mask:', 'R-C02-9'),
+    OK('nested-mask-false-by-identity-or-equality', 'chainables/tree.py',
+       '        result.append(elem)\n      elif mask == False:  # pylint: disable=singleton-comparison',
+       '        result.append(elem)\n      elif isinstance(mask, (bool, np.bool_, int)) and mask == False:'),
     B('falsy-slice-values-skipped', _F,
       '        for slice_value in slice_fn(*row):\n',
       '        for slice_value in slice_fn(*row):\n          if not slice_value:\n            continue\n',
